@@ -634,6 +634,10 @@ def _cm_cfg(draw, need_vocab, topk=False, samplewise=False):
     nv = draw(st.integers(2, 4))
     give = need_vocab or cfg['average'] == 'macro' or draw(st.booleans())
     cfg['vocab'] = VOCAB[:nv] if give else None
+  if need_vocab and cfg['average'] == 'macro' and it == 'binary':
+    cfg['vocab'] = list(cfg['labels'])       # ignored by the computation, satisfies the merge_states vocab check
+  if need_vocab and cfg['average'] == 'macro' and it == 'multiclass-indicator':
+    cfg['vocab'] = list(range(cfg['nclass']))
   if topk:
     cfg['k_list'] = sorted(draw(st.lists(st.integers(1, 4), min_size=1, max_size=3, unique=True)))
   return cfg
